@@ -706,8 +706,19 @@ pub fn case(max_segs: usize) -> impl Strategy<Value = Case> {
 pub fn long_case(buf: usize) -> impl Strategy<Value = Case> {
     (text_and_script(6), 1usize..=2, -2i32..=2, 0u16..u16::MAX, prop::collection::vec(any::<u16>(), 0..4), prop_oneof![Just(vec![]), prop::collection::vec(0u16..6, 1..3)])
         .prop_map(move |((text, script), k, delta, anchor, extra, interrupts)| {
-            // anchor byte inside `text` that should sit at k*buf+delta
-            let a = if text.is_empty() { 0 } else { (anchor as usize * text.len()) >> 16 };
+            // anchor byte inside `text` that should sit at k*buf+delta: preferably a CR, LF, minus sign or the
+            // first/last byte of a token (2 of 3 cases), otherwise any byte
+            let tb = text.as_bytes();
+            let special: Vec<usize> = (0..tb.len())
+                .filter(|&i| matches!(tb[i], b'\r' | b'\n' | b'-') || (i > 0 && tb[i - 1].is_ascii_whitespace() != tb[i].is_ascii_whitespace()))
+                .collect();
+            let a = if text.is_empty() {
+                0
+            } else if !special.is_empty() && anchor % 3 != 0 {
+                special[(anchor as usize / 3) % special.len()]
+            } else {
+                (anchor as usize * text.len()) >> 16
+            };
             let target = (k * buf) as i64 + delta as i64 - a as i64;
             let target = target.max(0) as usize;
             // filler: lines of digits read by one read_lines? No: keep the script simple — filler is a run of
